@@ -60,7 +60,7 @@ Definition latest_locator (s : store) : option (list N) :=
 
 (* ---------------- locateHeadersGetHeaders ---------------- *)
 
-Inductive lerr := ENoLocators | EStopLow.
+Inductive lerr := EStopLow.
 Inductive lres := LOk (l : list row) | LErr (e : lerr).
 
 (* sqlGetHeadersHeight: COALESCE(MAX(height), 0) over LONGEST_CHAIN rows whose hash is IN the locator *)
@@ -92,19 +92,22 @@ Definition sort_h (l : list row) : list row := fold_right insert_h [] l.
 Definition range_L (s : store) (lo hi : Z) : list row :=
   sort_h (filter (fun r => isL r && ((lo <=? height r) && (height r <=? hi))) (orev s)).
 
-(* stop = 0%N is the all-zero hash (hashstop.IsEqual(&chainhash.Hash{})) *)
+(* stop = 0%N is the all-zero hash (hashstop.IsEqual(&chainhash.Hash{})).
+   Code as of /repo fix: commits 1ef8815 and 744966c:
+   - an empty locator skips the IN (?) query and starts at height 0 (there is no "no locators" error any more);
+   - when the stop height is 0 the LONGEST_CHAIN header at height 0 is looked up (GetHeaderByHeight(0)); if the
+     stop hash is that header's hash the request is refused like any stop at or below the start. *)
 Definition locate (s : store) (locs : list N) (stop : N) : lres :=
-  match locs with
-  | [] => LErr ENoLocators
-  | _ :: _ =>
-    let start := start_height s locs in
-    let stopH := if N.eqb stop 0 then start + cap else stop_height s stop in
+  let start := match locs with [] => 0 | _ :: _ => start_height s locs end in
+  let stopH := if N.eqb stop 0 then start + cap else stop_height s stop in
+  if (stopH =? 0) && (match by_height_L s 0 with Some g => N.eqb (id g) stop | None => false end)
+  then LErr EStopLow
+  else
     let stopH := if stopH =? 0 then start + cap else stopH in
     if stopH <=? start then LErr EStopLow
     else
       let stopH := if cap <? stopH - start then start + cap else stopH in
-      LOk (range_L s (start + 1) stopH)
-  end.
+      LOk (range_L s (start + 1) stopH).
 
 (* what a peer receives: LocateHeaders logs the error and returns nil; handleGetHeadersMsg sends nothing *)
 Definition answer (r : lres) : list row := match r with LOk l => l | LErr _ => [] end.
